@@ -39,6 +39,12 @@ def prepare(F: Facts, classes: Optional[List[str]] = None) -> None:
     if F.__dict__.get('_op_prepared'):
         return
     F.__dict__['_op_prepared'] = True
+    # the node classes may live in other modules, with smartquery/ast_ops.py re-exporting them: follow the name
+    global ROOT
+    if ROOT not in F.classes:
+        r_ = F.resolve_dotted(AST_OPS + '.Op') if AST_OPS in F.modules else ('unbound', '')
+        if r_[0] == 'cls' and r_[1] in F.classes:
+            ROOT = r_[1]
     if classes is None:
         if ROOT not in F.classes:
             return
